@@ -605,11 +605,49 @@ func (rw *rewriter) storeCalls(s ast.Stmt) []ast.Stmt {
 func (rw *rewriter) stmts(list []ast.Stmt) []ast.Stmt {
 	var out []ast.Stmt
 	for _, s := range list {
+		post := rw.callsOut(s)
 		pre, ns := rw.stmt(s)
 		out = append(out, pre...)
 		out = append(out, ns)
+		if post {
+			// a scheduling point after every statement that makes a call: the callee may be
+			// uninstrumented (an io.Reader, the standard library) and do real work in between
+			out = append(out, &ast.ExprStmt{X: rw.rt("Yield", intLit(rw.newSite(s, "after call in "+rw.curFunc)))})
+		}
 	}
 	return out
+}
+
+// callsOut reports whether s is a simple statement containing a (non-builtin, non-conversion) call.
+func (rw *rewriter) callsOut(s ast.Stmt) bool {
+	switch s.(type) {
+	case *ast.AssignStmt, *ast.ExprStmt, *ast.DeclStmt, *ast.IncDecStmt:
+	default:
+		return false
+	}
+	found := false
+	ast.Inspect(s, func(n ast.Node) bool {
+		switch c := n.(type) {
+		case *ast.FuncLit:
+			return false
+		case *ast.CallExpr:
+			if tv, ok := rw.p.info.Types[c.Fun]; ok && tv.IsType() {
+				return true // conversion
+			}
+			if id, ok := c.Fun.(*ast.Ident); ok {
+				if _, b := rw.p.info.Uses[id].(*types.Builtin); b {
+					if id.Name == "panic" {
+						found = false
+						return false
+					}
+					return true
+				}
+			}
+			found = true
+		}
+		return true
+	})
+	return found
 }
 
 // headerAccesses gathers accesses of the header parts of compound statements.
